@@ -31,6 +31,7 @@ RULE = (
     ' Round 6: the MQTT spelling uses 8 topic prefixes (incl. the README default; digits that also occur in ids); a well-formed line rejected on that path is reported.'
     ' Round 7: format-string metacharacters among the odd spellings; id-request warm-ups enumerated.'
     ' Round 8: `stream` path (the line as bytes through a real StreamReader); MQTT path preceded by another message on the same topic.'
+    ' Round 9: BOM/zero-width/NUL prefixes and canonically decomposable characters on every path.'
 )
 ASSUMPTIONS = [
     "spelling classes: canonical -?(0|[1-9][0-9]*); anything else int() parses is a grey zone (verdict not demanded)",
